@@ -200,7 +200,10 @@ def run(ctx):
                                          "first_now": str(a[1:])[:200], "first_then": None if keep is None else keep.tolist()}, site="adjust_p")
     # unknown method names raise ValueError
     for name in ("nonsense", "holm", "", "Bonferroni", "bonferonni", "BH", "{method}", "{}", "holm-{bonferroni}", "{:>10}", "{0}", "%s", "%(name)s", "{",
-                 "benjamini-hochberg ", " holm-bonferroni", "holm_bonferroni", "bonferroni\n", "\x00"):
+                 "benjamini-hochberg ", " holm-bonferroni", "holm_bonferroni", "bonferroni\n", "\x00",
+                 # the legal names with their parts swapped / abbreviated / in other spellings found in docstrings and papers
+                 "bonferroni-holm", "hochberg-benjamini", "benjamini-hochberg-yekutieli", "holm-sidak", "Holm-Bonferroni", "HOLM-BONFERRONI", "holm bonferroni",
+                 "benjamini_hochberg", "fdr", "fdr_bh", "b", "h", "bonferroni-", "-bonferroni", "holm-bonferroni-", "sidak", "hommel", "none", "None"):
         for vec in ([0.3], [0.1, 0.2], [0.5, 0.5, 0.01], [0.0, 1.0, 0.2, 0.2]):
             r = guarded(npc.adjust_p, np.array(vec), name)
             ctx.case(("badmethod", name, len(vec)), True); ctx.count("unknown-method")
